@@ -875,6 +875,61 @@ def tm_conventions(R, P):
             "tm_year (years since 1900) is used without the + 1900 adjustment at %s: a calendar rule applied to it (leap years: %% 400) is shifted - 29 February 2000 is treated as impossible" % bad)
 
 
+def timestamp_width(R, P):
+    """UNITS/width: the seconds stored into aws_date_time.timestamp keep their 64 bits on the way from where they were computed:
+    no conversion (written out or implicit) to an integer type narrower than 64 bits lies between (seen through single-assignment
+    locals) - a 32-bit stop-over wraps every instant after 2106-02-07.  And a date text handed over as a byte buffer is read
+    up to its length, not up to the capacity of the storage it happens to sit in."""
+    n = 0
+    for f in sorted((g for g in P.by_key.values() if getattr(g, "blocks", None) and g.file.endswith(FILE)), key=lambda g: g.line):
+        for e in f.field_accesses(rec="aws_date_time", field="timestamp", modes=("w",)):
+            asg = None
+            for b in f.blocks.values():
+                for el in b.elems:
+                    if el["k"] == "bin" and el["op"] == "=" and f.d(el["a"][0]) is e.node:
+                        asg = el
+            if asg is None:
+                continue
+            n += 1
+            bad, seen, work = [], set(), [asg["a"][1]]
+            while work:
+                x0 = work.pop()
+                for x in f.walk(f.d(x0) if isinstance(x0, dict) and x0.get("k") == "ref" else x0, follow_refs=True):
+                    if x["k"] == "cast" and x.get("ck") == "IntegralCast":
+                        t = f.unit.types[x["t"]]
+                        ft = f.unit.types[x["ft"]] if x.get("ft", -1) >= 0 else {}
+                        if "w" in t and "w" in ft and t["w"] < 64 and ft["w"] >= 64 and f.is_const(x["a"][0]) is None:
+                            bad.append(f.show(x)[:60])
+                    if x["k"] == "var" and x.get("sc") == "local" and x["n"] not in seen:
+                        seen.add(x["n"])
+                        for b2 in f.blocks.values():
+                            for el2 in b2.elems:
+                                if el2["k"] == "decl":
+                                    work.extend(v2["init"] for v2 in el2["vars"] if v2["n"] == x["n"] and v2.get("init") is not None)
+                                elif el2["k"] == "bin" and el2["op"] == "=" and (f.d(el2["a"][0]) or {}).get("k") == "var" and f.d(el2["a"][0])["n"] == x["n"]:
+                                    work.append(el2["a"][1])
+            R.check(not bad, "UNITS", "timestamp-keeps-64-bits:%s:line%d" % (f.name, asg.get("loc", [0])[0]), where(f, e), "no narrowing on the way into dt->timestamp",
+                    "the seconds stored into dt->timestamp pass through %s: instants after 2106-02-07T06:28:15Z wrap around to 1970" % bad)
+    R.require(n >= 3, "only %d stores to aws_date_time.timestamp found" % n)
+    h = P.fn("aws_date_time_init_from_str_cursor")
+    if h is not None:
+        # whether a text is a date is decided by its characters: no instant is refused for its value (the epoch itself, and
+        # wall-clock fields that denote it before the offset is applied, are dates like any other)
+        dom = dominators(h)
+        for r_ in h.returns():
+            v_ = RU.uncast(h, r_.node["a"][0]) if r_.node.get("a") else None
+            if v_ is None or not ((v_["k"] == "call" and v_.get("callee") == "aws_raise_error") or (h.is_const(v_) not in (None, 0))):
+                continue
+            bad = [h.show(h.d(c_))[:60] for c_, p_, b_ in RU.guards(h, r_, dom) if any(x["k"] == "member" and x.get("rec") == "aws_date_time" and x["f"] == "timestamp" for x in h.walk(h.d(c_), follow_refs=True))]
+            R.check(not bad, "UNITS", "no-instant-refused-for-its-value:line%d" % r_.node.get("loc", [0])[0], where(h, r_), "this failure does not depend on the computed instant",
+                    "the parser refuses a text because of the value of the instant it denotes (%s): 1970-01-01T00:00:00Z and every text whose wall-clock fields are the epoch are rejected" % bad)
+    g = P.fn("aws_date_time_init_from_str")
+    if R.require(g is not None, "aws_date_time_init_from_str not found"):
+        rd = sorted({e.node["f"] for e in g.field_accesses(rec="aws_byte_buf") if e.mode in ("r", "rw")})
+        R.check("capacity" not in rd, "UNITS", "text-is-the-buffers-length", "%s()" % g.name, "the date text is the buffer's first len bytes (fields read: %s)" % rd,
+                "aws_date_time_init_from_str reads the buffer's capacity: the bytes behind the text (up to the storage's capacity) are parsed as part of the date, so text formatted into a larger output buffer does not read back")
+
+
 def analyse(ctx, replace=None, only=None):
     R = ctx.R
     units_ = [u for u in library_units(ctx.ex.repo) if "external" not in u]
@@ -894,10 +949,13 @@ def analyse(ctx, replace=None, only=None):
     date_only_accepted(R, P)
     nanos_range(R, P)
     units(R, P)
+    timestamp_width(R, P)
     zones(R, P)
 
 
 MUTANTS = [
+    {"name": "epoch-millis-through-32-bit-seconds", "file": FILE, "expect": "UNITS", "old": "    dt->timestamp =\n        (time_t)aws_timestamp_convert(ms_since_epoch, AWS_TIMESTAMP_MILLIS, AWS_TIMESTAMP_SECS, &milliseconds);", "new": "    uint32_t seconds =\n        (uint32_t)aws_timestamp_convert(ms_since_epoch, AWS_TIMESTAMP_MILLIS, AWS_TIMESTAMP_SECS, &milliseconds);\n    dt->timestamp = (time_t)seconds;"},
+    {"name": "date-text-up-to-the-capacity", "file": FILE, "expect": "UNITS", "old": "    struct aws_byte_cursor date_cursor = aws_byte_cursor_from_buf(date_str);", "new": "    struct aws_byte_cursor date_cursor = aws_byte_cursor_from_array(date_str->buffer, date_str->capacity);"},
     {"name": "iso-date-only-rejected", "file": FILE, "expect": "FORMAT-TABLE", "old": "    /* ISO8601 supports date only with no time portion */\n    if (str.len == 0) {\n        return true;\n    }\n", "new": ""},
     {"name": "first-day-digit-dropped", "file": FILE, "expect": "FIELD-MAP", "old": "                    state = ON_MONTH_DAY;\n                    parsed_time->tm_mday = parsed_time->tm_mday * 10 + (c - '0');\n", "new": "                    state = ON_MONTH_DAY;\n"},
     {"name": "iso-path-not-utc", "file": FILE, "expect": "OFFSET", "old": "            dt->utc_assumed = true;\n            successfully_parsed = true;\n        }\n    }\n\n    if (fmt == AWS_DATE_FORMAT_RFC822", "new": "            successfully_parsed = true;\n        }\n    }\n\n    if (fmt == AWS_DATE_FORMAT_RFC822"},
